@@ -8,6 +8,7 @@ CONSTANTS
  PatchCL = TRUE
  Mut = "none"
  RecordHist = FALSE
+ Monitor = FALSE
  FullProduct = FALSE
  MaxN = 6
 INVARIANT EmitInit
